@@ -28,6 +28,27 @@ PROPS = {
 }
 
 
+# census of unsafe sites in the crate (file -> (unsafe blocks, unsafe fns)); the model
+# has exactly one unchecked access reachable from safe code (iteration.rs try_get_next_item)
+UNSAFE_CENSUS = {"compact_arena.rs": (1, 4), "iteration.rs": (1, 0), "node.rs": (0, 3)}
+
+
+def unsafe_census(repo="/repo"):
+    out = {}
+    for f in sorted(glob.glob(os.path.join(repo, "rust", "src", "*.rs"))):
+        blocks = fns = 0
+        for line in open(f, errors="replace"):
+            t = line.strip()
+            if t.startswith("//"):
+                continue
+            t = t.split("//")[0]
+            blocks += len(re.findall(r"\bunsafe\s*\{", t))
+            fns += len(re.findall(r"\bunsafe\s+(?:fn|impl|trait)\b", t))
+        if blocks or fns:
+            out[os.path.basename(f)] = (blocks, fns)
+    return out
+
+
 class RustRunner:
     def __init__(self, harness, harness_release, vp):
         self.harness = harness
@@ -108,6 +129,11 @@ def verdict(prop, cfg, tier, seed, pr, results, runner, drv, t0, vp):
         if len(samples) < 2:
             ops = open(os.path.join(d, "ops")).read().split("\n")
             samples.append(ops[:12])
+    if prop in ("C05", "C15"):
+        cen = unsafe_census()
+        if cen != UNSAFE_CENSUS:
+            divs.append(dict(hid="?", step=0, expected="unsafe sites %s" % UNSAFE_CENSUS,
+                             actual="unsafe sites %s (the model covers only the listed unchecked accesses)" % cen))
     # histogram of op kinds
     histo = {}
     for r in results:
